@@ -4,6 +4,7 @@ CONSTANTS
   SmallMaxN = 0
   SmallVersions = {}
   VSels = {}
+  Slim = FALSE
   Variants = {}
 INIT TraceInit
 NEXT TraceNext
